@@ -207,7 +207,7 @@ func runC13(c *Cfg) {
 
 	// 2. skeleton cases (internal correspondence with state.finalize)
 	if !c.Focus {
-		nSkel := c.Pick(500, 4000)
+		nSkel := c.Pick(500, 3000)
 		for i := 0; i < nSkel; i++ {
 			sk := genSkelCase(r.Sub())
 			cs := &c13Case{schema: sk.schema, schemaTxt: renderJV(sk.schema), skel: sk}
@@ -216,7 +216,7 @@ func runC13(c *Cfg) {
 	}
 
 	// 3. generated schemas with schema-directed and random instances
-	nSchemas := c.Pick(1500, 12000)
+	nSchemas := c.Pick(1500, 8000)
 	nInst := c.Pick(8, 10)
 	if c.Focus {
 		nSchemas = c.Pick(4000, 40000)
